@@ -385,6 +385,9 @@ impl SSIterator for TableIterator {
                 false
             }
         } else {
+            // Moved before the first entry: forget the current block as well, otherwise the next
+            // advance() would iterate it a second time.
+            self.reset();
             false
         }
     }
